@@ -130,12 +130,18 @@ def run_engines(ctx, ms, want, info, rng, engines=("factored", "local", "public"
     """ms: list of (Q rows, noise float, y list). Compare every importable copy of the total estimator."""
     sizes = [len(Q[0]) for Q, _, _ in ms]
     attrs = ["m%d" % i for i in range(len(ms))]
+    # two measurements of the same size may be taken on the SAME marginal (same projection, different query matrix)
+    proj_of = list(range(len(ms)))
+    for i in range(1, len(ms)):
+        if sizes[i] == sizes[0] and rng.random() < 0.5:
+            proj_of[i] = 0
     if not ms:
         attrs, sizes = ["m0"], [2]
     dom = Domain(attrs, sizes)
     style = rng.choice(["dense", "sparse", "operator"])
     info = dict(info, spelling=style, domain=dict(zip(attrs, sizes)))
-    meas = [(spelled(Q, style), np.array(y, dtype=float), float(noise), (attrs[i],)) for i, (Q, noise, y) in enumerate(ms)]
+    meas = [(spelled(Q, style), np.array(y, dtype=float), float(noise), (attrs[proj_of[i]],)) for i, (Q, noise, y) in enumerate(ms)]
+    info["projections"] = [attrs[p] for p in proj_of]
     got = {}
     try:
         if "factored" in engines:
@@ -180,8 +186,8 @@ def run(ctx, canary=False):
     tcat = [{"n": c["n"], "Q": c["Q"], "wit": list(c["wit"])} for c in cat]
     mc = os.path.join(ctx.work, "MC_Total.tla")
     with open(mc, "w") as f:
-        f.write("---- MODULE MC_Total ----\nEXTENDS Total\nMCCat == %s\nMCS2 == {<<1, 4>>, <<1, 1>>, <<4, 1>>}\n====\n" % to_tla(tcat))
-    cfg = ("CONSTANTS\n  Cat <- MCCat\n  S2s <- MCS2\n  Ns = {1, 5}\n  MaxLen = 2\nSPECIFICATION Spec\nINVARIANT NoiseFree\n"
+        f.write("---- MODULE MC_Total ----\nEXTENDS Total\nMCCat == %s\nMCS2 == {<<1, 4>>, <<1, 1>>, <<4, 1>>}\nMCPerts == {0, 3, -7}\n====\n" % to_tla(tcat))
+    cfg = ("CONSTANTS\n  Cat <- MCCat\n  S2s <- MCS2\n  Ns = {1, 5}\n  Perts <- MCPerts\n  MaxLen = 2\nSPECIFICATION Spec\nINVARIANT NoiseFree\n"
            "INVARIANT AtLeastOne\nINVARIANT NoUsable\nCHECK_DEADLOCK FALSE\n")
     r = ctx.tlc(mc, cfg, name="Total", workers=12, extra_modules=("est",), timeout=7200)
     if r.violated:
